@@ -402,7 +402,10 @@ pub fn gen(r: &mut Rng, cases: usize, size: usize, extra: &[String], out: &mut O
     }
     for case in 0..cases {
         out.line(&format!("case adf-{profile}-{case}"));
-        let (n, acs): (usize, Vec<F>) = if profile == "cliwide" {
+        let (n, acs): (usize, Vec<F>) = if profile == "histwide" {
+            let n = r.range(65.min(maxn), maxn);
+            (n, gen_wide(r, n))
+        } else if profile == "cliwide" {
             let n = r.range(65.min(maxn), maxn);
             (n, gen_wide(r, n))
         } else if profile == "presentwide" {
@@ -1180,7 +1183,13 @@ impl Exec {
                 #[cfg(adf_obdd_verif)]
                 {
                     let n = self.n;
-                    if let Some(a) = self.adf(ws[1]) {
+                    if n > 7 {
+                        if let Some(a) = self.adf(ws[1]) {
+                            out.line(&format!("# case adf n={n} nodes={}", a.bdd.nodes.len()));
+                        }
+                    }
+                    // the audit works on truth tables: up to 7 statements
+                    if let Some(a) = self.adf(ws[1]).filter(|_| n <= 7) {
                         let t = dump_nodes(&a.bdd);
                         let m = crate::fam_bdd::dump_tables(&a.bdd);
                         out.line(&format!("memocheckn {n} {t} {m}"));
